@@ -889,6 +889,21 @@ pub fn plans_for(prop: &str, thorough: bool) -> Vec<Plan> {
                     oracles: O_TOTAL,
                     u_cap: 400,
                 });
+                // the library call with its own output verification switched on: still total, and still the formatted program
+                plans.push(Plan {
+                    name: "F-STMT + F-NUM + F-STR(short) with OutputVerification::Full (must return: never a panic or a hang)",
+                    cases: {
+                        let mut v = base.clone();
+                        v.extend(gen::f_num());
+                        v.extend(gen::f_str(2, 3, 1));
+                        v
+                    },
+                    cfgs: cross(false, |b| vec![b, Cfg { qs: 1, ..b }]),
+                    widths: Widths::Classes,
+                    ranges: Ranges::None,
+                    oracles: O_TOTAL | O_VERIFY,
+                    u_cap: 400,
+                });
                 // ranges are byte offsets: every pair of BYTES of programs that contain multi-byte characters
                 plans.push(Plan {
                     name: "programs with multi-byte characters x every pair of byte offsets as range",
